@@ -19,7 +19,7 @@ type seedPair struct {
 }
 
 func runC04(c *Ctx) {
-	c.res.Rule = "MnemonicToSeed on: all (m,p) in Sigma^<=2 x Sigma^<=1 and Sigma^<=1 x Sigma^<=2 (thorough: Sigma^<=2 x Sigma^<=2) over a 16-letter Unicode probe alphabet (precomposed/decomposed, full-width, long compatibility expansions, half-width kana + voiced mark, reordering marks, Hangul, ligature, 18-char expansion, astral); Sigma^<=3 for one argument with the other fixed; byte-length ladders 0..300 of 'a', U+00E9 and U+3042 runs for each argument (HMAC block / SHA-512 padding boundaries); every assigned code point whose NFKD differs from itself (5795 non-Hangul; Hangul syllables: all in thorough, every 97th in quick) alone as passphrase and (quick: every second) as mnemonic; combining-mark run probes a+U+0301 x k. Oracle: byte equality with a hand-written PBKDF2-HMAC-SHA512 over CPython-NFKD forms, length 64, fresh slice on every call. distinct_nontrivial = distinct (mnemonic, passphrase) pairs"
+	c.res.Rule = "MnemonicToSeed on: all (m,p) in Sigma^<=2 x Sigma^<=1 and Sigma^<=1 x Sigma^<=2 (thorough: Sigma^<=2 x Sigma^<=2) over a 16-letter Unicode probe alphabet (precomposed/decomposed, full-width, long compatibility expansions, half-width kana + voiced mark, reordering marks, Hangul, ligature, 18-char expansion, astral); Sigma^<=3 for one argument with the other fixed; byte-length ladders 0..300 of 'a', U+00E9 and U+3042 runs for each argument (HMAC block / SHA-512 padding boundaries); every assigned code point whose NFKD differs from itself (5795 non-Hangul; Hangul syllables: all in thorough, every 97th in quick) alone as passphrase and (quick: every second) as mnemonic; combining-mark run probes a+U+0301 x k; valid sentences of all ten languages with stray leading/trailing/doubled white space and changed case; sequential call triples whose arguments concatenate to the same text. Oracle: byte equality with a hand-written PBKDF2-HMAC-SHA512 over CPython-NFKD forms, length 64, fresh slice on every call. distinct_nontrivial = distinct (mnemonic, passphrase) pairs"
 	c.Assume("CPython unicodedata (Unicode 14) NFKD is the standard NFKD for the assigned code points used", "hand-written PBKDF2 cross-checked against OpenSSL via hashlib on every run")
 
 	var pairs []seedPair
@@ -63,6 +63,14 @@ func runC04(c *Ctx) {
 	pairs = append(pairs, seedPair{c.M.Encode(make([]byte, 16), 2), "TREZOR", true, "vector"},
 		seedPair{c.M.Encode(bytes.Repeat([]byte{0x80}, 32), ref.Japanese), "\u30e1\u30fc\u30c8\u30eb\u30ac\u30a6\u30a9\u30ec\u30c3\u30c8\u3000\uff11\uff12\uff13", true, "vector"})
 
+	// valid sentences with stray white space: never trimmed, tidied or validated
+	for l := 0; l < ref.NLang; l++ {
+		v := c.M.Encode(bytes.Repeat([]byte{byte(0x10 + 11*l)}, 16+4*(l%5)), l)
+		for _, w := range []string{" " + v, v + " ", v + "\n", "\t" + v, strings.Replace(v, ref.Sep(l), ref.Sep(l)+ref.Sep(l), 1), "\u3000" + v, v + "\u00a0", upperFirst(v)} {
+			pairs = append(pairs, seedPair{w, "", false, "valid-sentence-with-stray-space"})
+		}
+		pairs = append(pairs, seedPair{v, " ", false, "valid-sentence-with-stray-space"}, seedPair{v, "", true, "valid-sentence"})
+	}
 	// every assigned code point that NFKD changes, alone, as either argument
 	dec := c.decompSlice()
 	for i, d := range dec {
@@ -126,6 +134,35 @@ func runC04(c *Ctx) {
 			return
 		}
 	})
+	// argument-boundary ambiguity, sequentially: pairs of calls whose arguments concatenate to the
+	// same text (with and without the "mnemonic" salt prefix in between) must still give the
+	// seeds of their own arguments, in both orders (a memo keyed by a delimiter-less join shows here)
+	var nAmb int64
+	ambig := func(m1, p1, m2, p2 string) {
+		for _, q := range [][2]string{{m1, p1}, {m2, p2}, {m1, p1}} {
+			got := bip39.MnemonicToSeed(q[0], q[1])
+			c.Eval(1)
+			nAmb++
+			want := ref.Seed(nfkdOf(c, q[0]), nfkdOf(c, q[1]))
+			if !bytes.Equal(got, want) {
+				c.Violate(fmt.Sprintf("seedseq:%s:%s:%s:%s", hs(m1), hs(p1), hs(m2), hs(p2)),
+					fmt.Sprintf("in the call sequence (%+q,%+q), (%+q,%+q), (%+q,%+q): MnemonicToSeed(%+q,%+q) = %x, PBKDF2 gives %x", m1, p1, m2, p2, m1, p1, q[0], q[1], got, want),
+					map[string]interface{}{"kind": "seedseq", "calls": []string{hs(m1), hs(p1), hs(m2), hs(p2), hs(m1), hs(p1)}})
+				return
+			}
+		}
+	}
+	for _, x := range []string{"X", "abandon ability", "", "\u00e9"} {
+		for _, y := range []string{"Y", "", "TREZOR", "\u3042"} {
+			ambig(x, "mnemonic"+y, x+"mnemonic", y)
+			ambig(x+"mnemonic", y, x, "mnemonic"+y)
+			ambig(x+"ab", "c"+y, x+"a", "bc"+y)
+			ambig(x, y, x+y, "")
+			ambig(x, y, "", x+y)
+			ambig(x, y, y, x)
+		}
+	}
+	c.AddScope("argument-boundary ambiguity sequences (sequential)", nAmb, true, "")
 	// freshness, sequentially (no other call in between): the second of two identical
 	// calls must not be affected by overwriting the first result, nor share its memory;
 	// also with one different call in between
@@ -170,4 +207,16 @@ func runC04(c *Ctx) {
 	c.mu.Unlock()
 	c.Sample(4, map[string]interface{}{"mnemonic": fmt.Sprintf("%+q", Sigma[6]+Sigma[8]), "passphrase": fmt.Sprintf("%+q", Sigma[7]), "nfkd_mnemonic": fmt.Sprintf("%+q", nfkd(Sigma[6]+Sigma[8]))})
 	c.Sample(4, map[string]interface{}{"mnemonic": "'a' x 129", "passphrase": "", "why": "password longer than the 128-byte HMAC block"})
+}
+
+// nfkdOf asks the oracle for one string (used by the small sequential phases).
+var nfkdCache = map[string]string{}
+
+func nfkdOf(c *Ctx, s string) string {
+	if v, ok := nfkdCache[s]; ok {
+		return v
+	}
+	v := c.pyNorm("NFKD", []string{s})[0]
+	nfkdCache[s] = v
+	return v
 }
